@@ -118,7 +118,11 @@ def conditions(tier):
         for nn in range(N + 1):
             if no + nn >= 7:
                 # the largest cells are split by two equality predicates (4 conditions, only for parallelism / time budget)
-                for i, p in enumerate(["c0 == n0 and c1 == n1", "c0 == n0 and c1 != n1", "c0 != n0 and c1 == n0", "c0 != n0 and c1 != n0"]):
+                if no + nn >= 8:
+                    preds = [" and ".join(f"c{k} {'==' if (m >> k) & 1 else '!='} n{k}" for k in range(3)) for m in range(8)]  # exhaustive 8-way split
+                else:
+                    preds = ["c0 == n0 and c1 == n1", "c0 == n0 and c1 != n1", "c0 != n0 and c1 == n0", "c0 != n0 and c1 != n0"]
+                for i, p in enumerate(preds):
                     conds.append(_cond(f"list{no}_list{nn}_s{i}", S.L(*cn(no)), S.L(*cn(nn, "n")), "seq", timeout=2400, pre=[p],
                                        bounds=f"previous list of {no}, observed list of {nn} symbolic ints, case split {i}: {p}"))
                 continue
@@ -179,7 +183,7 @@ def conditions(tier):
     conds.append(_cond("nest_q", S.C("Q", p=S.C("P", a="c0"), n="c1"), S.C("Q", p=S.C("P", a="n0", b="n1"), n="n2"), "nested"))
     conds.append(_cond("nest_lt", S.L(S.T("c0"), "c1"), S.L(S.T("n0", "n1"), "n2"), "nested"))
     if not q:
-        for i, p in enumerate(["c0 == n0", "c0 != n0 and c0 == n2", "c0 != n0 and c0 != n2"]):
+        for i, p in enumerate([" and ".join(f"c{k} {'==' if (m >> k) & 1 else '!='} n{k}" for k in range(3)) for m in range(8)]):
             conds.append(_cond(f"nest_ll22_s{i}", S.L(S.L("c0", "c1"), S.L("c2", "c3")), S.L(S.L("n0", "n1"), S.L("n2", "n3")), "nested", timeout=2400, pre=[p]))
         conds.append(_cond("nest_dd", S.D(("1", S.D(("1", "c0"))), ("2", "c1")), S.D(("1", S.D(("2", "n0"))), ("3", "n1")), "nested"))
     conds.append(_cond("list2_list2", S.L("c0", "c1"), S.L("n0", "n1"), "seq", twin=True))
